@@ -67,7 +67,12 @@ func flowC04(c *Ctx) {
 	c.Run.Rule(r2, "calculateDownlinkJoinMIC feeds the CMAC JoinReqType|JoinEUI|DevNonce exactly under DLSettings.OptNeg, followed by MHDR|payload unconditionally")
 	c.Run.Rule(r3, "EncryptJoinAcceptPayload calls cipher.Block.Decrypt (Decrypt…: Block.Encrypt) once per 16-byte block at offsets 16i..16i+16 of payload|MIC, length a multiple of 16, outputs split at len-4")
 
-	if fn := flowFn(c, r2, "", "PHYPayload.calculateDownlinkJoinMIC"); fn != nil {
+	if fn := flowFn(c, r2, "", "PHYPayload.calculateDownlinkJoinMIC"); fn != nil && len(fn.Params) != 5 {
+		// the rule names the parameters by position (receiver, joinReqType, joinEUI, devNonce, key); with another
+		// parameter list (an options struct) it has nothing to compare with — what the function computes is decided by
+		// the E1 rules on the function as a whole
+		c.Run.Unknown(r2, fnKey(fn)+"/params", fpos(c, fn), "five parameters (receiver, joinReqType, joinEUI, devNonce, key)", fmt.Sprint(len(fn.Params)))
+	} else if fn != nil {
 		key := fnKey(fn)
 		e := flow.For(fn)
 		J := flow.Extract(flow.Assert(flow.Param(0, "MACPayload"), "*lorawan.JoinAcceptPayload"), 0)
